@@ -597,7 +597,7 @@ func (em *emitter) emitAssignmentNode(node *ast.Assignment) {
 				break
 			}
 			expr := v.Expr
-			if op, ok := expr.(*ast.UnaryOperator); ok && op.Op == ast.OperatorPointer {
+			if op, ok := expr.(*ast.UnaryOperator); ok && op.Op == ast.OperatorPointer && em.typ(expr).Kind() == reflect.Struct {
 				expr = op.Expr
 			}
 			typ := em.typ(expr)
